@@ -186,6 +186,8 @@ class Program:
         self.closures = {}          # site -> nested function definition + defining scope
         self.field_classes = {}     # (root class, field) -> class of the object the constructor leaves there
         self._instance_attrs = {}
+        self._dict_record_ok = {}
+        self.dict_records = {}      # (root class, field) -> keys of a constructor-built dict used as a fixed set of slots
         self.field_aliases = {}     # (root class, owner.part) -> the field of the owner that holds the very same object
         self.nonnull = {}           # (root class, field) -> the attribute is never None once the object is constructed
         self.back_refs = {}         # (root class, owner.part) -> ("outer", prefix) when the part always denotes the owner
@@ -325,6 +327,47 @@ class Program:
     def subclasses(self, base, strict=False):
         out = [c for m in self.modules.values() for c in m.classes.values() if base in self.mro(c)]
         return [c for c in out if c is not base] if strict else out
+
+    def dict_record_ok(self, root, fld):
+        """May `self.<fld>` (a dict display with constant keys built by the constructor) be treated as a fixed set of
+        named slots?  Yes when, in all classes of the hierarchy, the attribute is assigned only in constructors and
+        every other use is a subscription `self.<fld>[...]`, directly or through a local name used only that way."""
+        key = (root.qual, fld)
+        if key in self._dict_record_ok:
+            return self._dict_record_ok[key]
+        ok = True
+        classes = list(self.mro(root)) + [c for c in self.subclasses(root) if c not in self.mro(root)]
+        for k in classes:
+            for fn in ast.walk(k.node):
+                if not isinstance(fn, ast.FunctionDef):
+                    continue
+                parents = {}
+                for n in ast.walk(fn):
+                    for ch in ast.iter_child_nodes(n):
+                        parents[ch] = n
+                aliases = set()
+                for n in ast.walk(fn):
+                    if isinstance(n, ast.Attribute) and n.attr == fld:
+                        par = parents.get(n)
+                        if isinstance(n.ctx, (ast.Store, ast.Del)):
+                            ok = ok and fn.name == "__init__" and isinstance(n.ctx, ast.Store)
+                        elif isinstance(par, ast.Subscript) and par.value is n:
+                            pass
+                        elif isinstance(par, ast.Assign) and par.value is n and len(par.targets) == 1 and \
+                                isinstance(par.targets[0], ast.Name):
+                            aliases.add(par.targets[0].id)
+                        else:
+                            ok = False
+                    if isinstance(n, ast.Call) and isinstance(n.func, ast.Name) and n.func.id in ("getattr", "setattr", "vars"):
+                        ok = False
+                for a in aliases:
+                    stores = [n for n in ast.walk(fn) if isinstance(n, ast.Name) and n.id == a and isinstance(n.ctx, ast.Store)]
+                    loads = [n for n in ast.walk(fn) if isinstance(n, ast.Name) and n.id == a and isinstance(n.ctx, ast.Load)]
+                    if len(stores) != 1 or any(not (isinstance(parents.get(n), ast.Subscript) and parents[n].value is n)
+                                               for n in loads):
+                        ok = False
+        self._dict_record_ok[key] = ok
+        return ok
 
     def instance_attrs(self, cls):
         """Names assigned as attributes of an object (`<name>.attr = ...`, setattr) anywhere in the classes of the MRO."""
@@ -698,6 +741,11 @@ def _format_braces(fmt, args, kwargs):
 
 MEMO_DECORATORS = ("cached_property", "functools.cached_property", "lru_cache", "functools.lru_cache", "cache",
                    "functools.cache")
+
+
+def _walk_events(events):
+    from .paths import walk
+    return walk(events)
 
 
 def _is_ns(t):
@@ -1331,6 +1379,8 @@ class Summariser:
                 self.fields[name] = back
                 return back
             names = self._record_names(name)
+            if names and self.cls is not None and (self._root_key(), name) in self.prog.dict_records:
+                return ("dictrec", name, tuple(names))      # a reference to the dict of named slots, not a snapshot
             if names:
                 # a field that holds an immutable record is the display of its components
                 self.fields[name] = ("tuple", tuple(("field0", f"{name}.{n}") for n in names), ("names",) + tuple(names))
@@ -1421,6 +1471,19 @@ class Summariser:
         s.fields, s.env = fields, self.env
         for k in [k for k in s.fields if k.startswith("%")]:
             del s.fields[k]                 # state of local collaborator objects
+        if self.fn.name == "__init__" and self.cls is not None and self.depth == 0 and not self.field_prefix:
+            root = self.prog.mro(self.cls)[0]
+            for k, v in list(s.fields.items()):
+                if v[0] == "new" and v[2] == "dict" and v[3] and "." not in k and \
+                        all(i[0] == "kv" and i[1][0] == "const" and isinstance(i[1][1], str) and i[1][1].isidentifier() for i in v[3]) \
+                        and len({i[1][1] for i in v[3]}) == len(v[3]) and self.prog.dict_record_ok(root, k) and \
+                        not any(isinstance(ev, (SubStore, Mut, Del)) and getattr(ev, "cont", getattr(ev, "recv", None)) == v
+                                for ev, _ in _walk_events(events)):
+                    # a dict of named slots: each entry is a component of the object's state
+                    del s.fields[k]
+                    for i in v[3]:
+                        s.fields[f"{k}.{i[1][1]}"] = i[2]
+                    self.prog.dict_records[(root.qual, k)] = tuple(i[1][1] for i in v[3])
         for k, v in list(s.fields.items()):
             names = record_names(v)
             if names:
@@ -1702,7 +1765,23 @@ class Summariser:
         elif isinstance(target, ast.Subscript):
             cont = self.expr(target.value, events)
             key = self.expr(target.slice, events)
+            if cont[0] == "dictrec":
+                if not (key[0] == "const" and key[1] in cont[2]):
+                    raise Unsupported(f"store into self.{cont[1]} under a key that is not one of its constant keys at "
+                                      f"{self.module.path}:{st.lineno}")
+                attr = f"{cont[1]}.{key[1]}"
+                self.fields[attr] = val
+                events.append(Store(attr, val, st.lineno, aug))
+                return
             events.append(SubStore(cont, key, val, st.lineno, aug))
+        elif isinstance(target, (ast.Tuple, ast.List)) and val[0] == "comp" and val[1] in ("gen", "list") and \
+                val[4] is None and not val[6] and val[5][0] != "flat" and val[3][0] == "fn" and val[3][1] == "range" and \
+                len(val[3][2]) == 1 and val[3][2][0] == ("const", len(target.elts)) and \
+                not any(isinstance(e, ast.Starred) for e in target.elts):
+            # a, b, c = (make() for _ in range(3)): one evaluation of the element expression per target, each its own
+            for i, el in enumerate(target.elts):
+                item = relabel_loop(subst(val[5], {("elem", val[2]): ("const", i)}), val[2], self.ids.next())
+                self.assign(el, item, events, st)
         elif isinstance(target, (ast.Tuple, ast.List)):
             if val[0] == "tuple" and len(val[1]) == len(target.elts) and \
                     not any(isinstance(e, ast.Starred) for e in target.elts):
@@ -2496,6 +2575,11 @@ class Summariser:
             base, idx = self._expr(e.value, events), self._expr(e.slice, events)
             if base[0] == "tuple" and idx[0] == "const" and isinstance(idx[1], int) and 0 <= idx[1] < len(base[1]):
                 return base[1][idx[1]]
+            if base[0] == "dictrec":
+                if idx[0] == "const" and idx[1] in base[2]:
+                    return self.field(f"{base[1]}.{idx[1]}")
+                raise Unsupported(f"slot {ast.unparse(e.slice)[:40]} of self.{base[1]} is not one of its constant keys "
+                                  f"at {self.module.path}:{e.lineno}")
             if base[0] == "constdict":
                 table = {k[1]: v for k, v in base[1]}
                 if idx[0] == "const":
@@ -2901,6 +2985,10 @@ class Summariser:
                 c, m = self.prog.find_method(K, f.attr)
                 if m is not None:
                     return self._inline_owned(K, recv[1], c, m, args, dict(kwargs), events, e)
+            if recv[0] == "field0" and self.cls is not None and "." in recv[1] and not self.field_prefix and \
+                    self.fields.get(recv[1], recv) == recv and \
+                    (self._root_key(), recv[1].split(".")[0]) in self.prog.dict_records:
+                return self._field_method_call(recv[1], f.attr, args, kwargs, events, e)    # a named slot of a dict of slots
             if recv[0] == "field0" and self.cls is not None and "." not in recv[1] and not self.field_prefix and \
                     self.fields.get(recv[1], recv) == recv and self._owned_class(recv[1]) is None and \
                     not self._is_property(recv[1]):
